@@ -5,13 +5,14 @@ import asyncio, sys, itertools
 from lib.native import Native
 
 
-def call_pclevel(no_async, behaviour, nyield, annotated, nested):
+def call_pclevel(no_async, behaviour, nyield, annotated, nested, pending=0):
     sys.argv = [sys.argv[0] if sys.argv else 'x', '--no-log']
     from mpyc.runtime import mpc
     from mpyc import asyncoro
     rt = mpc
     old = (rt.options.no_async, rt._pc_level, list(rt._program_counter))
     rt.options.no_async = no_async
+    rt._pc_level += pending        # other MPyC coroutines still pending when this one is called (the level is then above the caller's depth)
     loop = rt._loop
     old_handler = loop.get_exception_handler(); loop.set_exception_handler(lambda lp, ctx: None)      # the raising behaviours are intended
     log = []
@@ -22,6 +23,7 @@ def call_pclevel(no_async, behaviour, nyield, annotated, nested):
 
         async def body(depth):
             try:
+                if behaviour == 'raise0': raise KeyError('before the first await, no declared type')      # the except-Exception branch of the first send
                 if behaviour == 'declnone':
                     await rt.returnType(None)          # declared to return nothing (e.g. Runtime.peek-like logging coroutines): stays pending like any other
                 elif not annotated and behaviour != 'nodecl':
@@ -97,9 +99,12 @@ def in_pclevel(tier):
                         if annotated and behaviour in ('nodecl', 'declnone'): continue
                         if behaviour == 'nodecl' and (nyield or nested): continue      # without a declared type the coroutine must finish at its first step
                         if no_async and nyield: continue           # synchronous mode cannot suspend on an unfinished future
-                        yield (no_async, behaviour, nyield, annotated, nested)
+                        for pending in (0, 2):
+                            yield (no_async, behaviour, nyield, annotated, nested, pending)
+        for pending in (0, 2):
+            yield (no_async, 'raise0', 0, False, False, pending)
 
 
 NATIVE = {'pc_level': Native('pc_level', 'mpyc.asyncoro.mpc_coro/typed_asyncoro/_reconcile/_ProgramCounterWrapper', call_pclevel, ck_pclevel, in_pclevel,
-                             'behaviours {return, raise, no declared type, declared None} x yields 0..2 x return annotation x nesting x no_async')}
+                             'behaviours {return, raise, raise before the first await, no declared type, declared None} x yields 0..2 x return annotation x nesting x no_async x {0, 2} other coroutines pending')}
 NATIVE['pc_level'].module = 'contracts.asyncoro_pclevel'
